@@ -1,4 +1,5 @@
 import Gomjml.Core.Resolve
+import Gomjml.Core.Store
 import Gomjml.Gen.AttrSites
 import Gomjml.Expect.AttrSites
 /-! # C09 — attribute values resolve by MJML precedence, independent of source (property theorems only) -/
@@ -36,6 +37,26 @@ theorem C09_sites :
     ∀ s ∈ Gomjml.Gen.AttrSites.attrSites, s.2.2.1 = "full" ∨ s.2.2.1 = "written" ∨
       (s.1, s.2.2.1, s.2.2.2) ∈ Gomjml.Expect.AttrSites.knownNonFull := by
   decide +kernel
+
+/-- **the document's attribute store is "the last definition wins, attribute by attribute"**: whatever the head defines — in
+    however many mj-attributes blocks, in whatever order, the same tag / class / mj-all any number of times — a lookup returns
+    the last definition of that attribute in document order (for the tag if it has one, else for mj-all; for a class: the
+    definitions of all mj-class entries of that name, the `name` attribute itself aside) -/
+theorem C09_store_is_last_definition (blocks : List (List Gomjml.Store.Entry)) (t c a : String) :
+    Gomjml.Store.globalAttr (Gomjml.Store.build blocks) t a =
+      ((Gomjml.Store.lastDef (Gomjml.Store.tagDefs t blocks.flatten) a).orElse
+        (fun _ => Gomjml.Store.lastDef (Gomjml.Store.allDefs blocks.flatten) a)).getD "" ∧
+    Gomjml.Store.classAttr (Gomjml.Store.build blocks) c a =
+      (Gomjml.Store.lastDef (Gomjml.Store.classDefs c blocks.flatten) a).getD "" :=
+  Gomjml.Store.build_spec blocks t c a
+
+/-- non-vacuity: two blocks, the tag default of the second overrides the colour of the first and keeps its font size -/
+example : Gomjml.Store.globalAttr (Gomjml.Store.build [[.tag "mj-text" [("color", "red"), ("font-size", "9px")], .all [("color", "green")]],
+      [.tag "mj-text" [("color", "blue")]]]) "mj-text" "color" = "blue" ∧
+    Gomjml.Store.globalAttr (Gomjml.Store.build [[.tag "mj-text" [("color", "red"), ("font-size", "9px")], .all [("color", "green")]],
+      [.tag "mj-text" [("color", "blue")]]]) "mj-text" "font-size" = "9px" ∧
+    Gomjml.Store.globalAttr (Gomjml.Store.build [[.tag "mj-text" [("color", "red"), ("font-size", "9px")], .all [("color", "green")]],
+      [.tag "mj-text" [("color", "blue")]]]) "mj-image" "color" = "green" := by decide
 
 /-- css-class resolves by the same precedence (its mj-class values joined instead of overridden), and reaches an element from
     mj-attributes — the tag default, else mj-all — when nothing nearer supplies it -/
